@@ -532,7 +532,23 @@ func (g *Gen) Next(step int) Op {
 			if g.AvoidKF && !okk {
 				to, okk, rf = g.user(), true, a
 			}
-			return Op{K: k, C: c, A: to, B: rf, Toks: toks, Flag: okk, To: to}
+			// the (external) sender's own fxcore account: another user; the memo: mostly empty, sometimes arbitrary, sometimes
+			// exactly the send-call-to marker (then the sender's account is credited and `to` is called as the sender)
+			sd := g.user()
+			for i := 0; i < 4 && sd == to; i++ {
+				sd = g.user()
+			}
+			memo := 0
+			switch n := r.Pick(100); {
+			case n < 22:
+				memo = 2
+			case n < 36:
+				memo = 1
+			}
+			if memo == 2 && rf == to && r.Chance(50) {
+				rf = sd
+			}
+			return Op{K: k, C: c, A: to, B: rf, S: sd, Memo: memo, X: int64(r.Pick(3)), Toks: toks, Flag: okk, To: to}
 		case "ConvertCoin":
 			a, t = g.holder(false)
 			return Op{K: k, T: t, A: a, B: g.receiver(a, t), X: g.amt(g.bankBal(a, t, 0), 5000)}
